@@ -14,6 +14,10 @@ type frame struct {
 	freeVars    []*ObjectPtr
 	ip          int
 	basePointer int
+	// discardRet is set once the frame was re-entered by a self tail call
+	// whose value the caller discards (an expression statement followed by
+	// the implicit return): such a frame returns undefined.
+	discardRet bool
 }
 
 // VM is a virtual machine that executes the bytecode compiled by Compiler.
@@ -608,6 +612,9 @@ func (v *VM) run() {
 					if nextOp == parser.OpReturn ||
 						(nextOp == parser.OpPop &&
 							parser.OpReturn == v.curInsts[v.ip+2]) {
+						if nextOp == parser.OpPop {
+							v.curFrame.discardRet = true
+						}
 						for p := 0; p < numArgs; p++ {
 							v.stack[v.curFrame.basePointer+p] =
 								v.stack[v.sp-numArgs+p]
@@ -626,6 +633,7 @@ func (v *VM) run() {
 				v.curFrame.ip = v.ip // store current ip before call
 				v.curFrame = &(v.frames[v.framesIndex])
 				v.curFrame.fn = callee
+				v.curFrame.discardRet = false
 				v.curFrame.freeVars = callee.Free
 				v.curFrame.basePointer = v.sp - numArgs
 				v.curInsts = callee.Instructions
@@ -675,6 +683,9 @@ func (v *VM) run() {
 			if int(v.curInsts[v.ip]) == 1 {
 				retVal = v.stack[v.sp-1]
 			} else {
+				retVal = UndefinedValue
+			}
+			if v.curFrame.discardRet {
 				retVal = UndefinedValue
 			}
 			//v.sp--
